@@ -24,6 +24,7 @@
 package main
 
 import (
+	"bytes"
 	"encoding/binary"
 	"encoding/json"
 	"fmt"
@@ -1100,6 +1101,124 @@ func argsPart() {
 	evals.Add(int64(cnt))
 }
 
+// ---------------------------------------------------------------- H: history independence
+
+// historyPart: the result of a sampling call is a function of the source bytes it consumes, not of
+// what the generator was used for before (scratch buffers, cached masks/sizes). For every function,
+// a set of shapes that includes the 1-byte/2-byte draw boundary (n = 255..258, 65536, 65537), a set
+// of tapes and a set of PRIOR calls that leave non-zero bytes in every internal buffer, the call
+// on the used generator must return what it returns on a fresh generator, after the same number of reads.
+func historyPart(thorough bool) {
+	type prior struct {
+		name string
+		tape []byte
+		do   func(p random.Rand)
+	}
+	priors := []prior{
+		{"UintN(2^64-1) on fe ff..ff", []byte{0xfe, 0xff, 0xff, 0xff, 0xff, 0xff, 0xff, 0xff}, func(p random.Rand) { p.UintN(^uint64(0)) }},
+		{"UintN(512) on ff 01", []byte{0xff, 0x01}, func(p random.Rand) { p.UintN(512) }},
+		{"UintN(65536) on ff ff", []byte{0xff, 0xff}, func(p random.Rand) { p.UintN(65536) }},
+		{"UintN(2^24+1) on 00 00 00 01", []byte{0, 0, 0, 1}, func(p random.Rand) { p.UintN(1<<24 + 1) }},
+		{"Permutation(300) on 01 01 ..", bytes.Repeat([]byte{1}, 400), func(p random.Rand) { p.Permutation(300) }},
+		{"Samples(70000,2) on ff ff 00 fe ff 00", []byte{0xff, 0xff, 0x00, 0xfe, 0xff, 0x00}, func(p random.Rand) { p.Samples(70000, 2, func(i, j int) {}) }},
+	}
+	ns := []int{1, 2, 3, 5, 8, 9, 16, 17, 100, 255, 256, 257, 258, 300}
+	if thorough {
+		ns = append(ns, 511, 512, 513, 1000, 65535, 65536, 65537)
+	}
+	tapes := map[string]func(i int) byte{
+		"zeros":   func(i int) byte { return 0 },
+		"ones":    func(i int) byte { return 1 },
+		"0x55":    func(i int) byte { return 0x55 },
+		"counter": func(i int) byte { return byte(i) },
+		"0xff-every-3rd": func(i int) byte {
+			if i%3 == 0 {
+				return 0xff
+			}
+			return byte(i >> 1)
+		},
+	}
+	type job struct {
+		fn   string
+		n, m int
+	}
+	var jobs []job
+	for _, n := range ns {
+		jobs = append(jobs, job{"Permutation", n, n}, job{"Shuffle", n, n})
+		for _, m := range []int{1, 2, n / 2, n} {
+			if m >= 1 && m <= n {
+				jobs = append(jobs, job{"SubPermutation", n, m}, job{"Samples", n, m})
+			}
+		}
+	}
+	var cnt atomic.Int64
+	ev.Par(len(jobs), func(ji int) {
+		j := jobs[ji]
+		callOn := func(rg *rig, data []byte) (string, int) {
+			rg.tp.extraZero = 4*j.n + 64
+			rg.load(data)
+			var out string
+			hung := guarded(func() {
+				switch j.fn {
+				case "Permutation":
+					o, err := rg.p.Permutation(j.n)
+					out = fmt.Sprint(o, err)
+				case "SubPermutation":
+					o, err := rg.p.SubPermutation(j.n, j.m)
+					out = fmt.Sprint(o, err)
+				case "Shuffle", "Samples":
+					var sw []int
+					f := func(a, b int) { sw = append(sw, a, b) }
+					var err error
+					if j.fn == "Shuffle" {
+						err = rg.p.Shuffle(j.n, f)
+					} else {
+						err = rg.p.Samples(j.n, j.m, f)
+					}
+					out = fmt.Sprint(sw, err)
+				}
+			})
+			if hung {
+				return "no-return", rg.tp.reads
+			}
+			return out, rg.tp.reads
+		}
+		for tn, tf := range tapes {
+			data := make([]byte, 4*j.n+16)
+			for i := range data {
+				data[i] = tf(i)
+			}
+			fresh := newRig()
+			want, wreads := callOn(fresh, data)
+			for _, pr := range priors {
+				used := newRig()
+				used.load(pr.tape)
+				if guarded(func() { pr.do(used.p) }) {
+					continue
+				}
+				got, greads := callOn(used, data)
+				cnt.Add(1)
+				if got != want || greads != wreads {
+					name := fmt.Sprintf("%s(%d,%d)", j.fn, j.n, j.m)
+					viol(strings.ToLower(j.fn)+":depends-on-earlier-calls",
+						fmt.Sprintf("%s on tape %q gives a different result (or number of reads: %d vs %d) right after %s than on a fresh generator", name, tn, greads, wreads, pr.name),
+						replay{Kind: "history", Fn: j.fn, NInt: j.n, M: j.m, Tape: tn, Prior: []string{pr.name}, Got: clipStr(got), Want: clipStr(want)})
+				}
+			}
+		}
+		run.Distinct(fmt.Sprintf("h/%s/%d/%d", j.fn, j.n, j.m))
+	})
+	evals.Add(cnt.Load())
+	run.Set("history_independence_cases", cnt.Load())
+}
+
+func clipStr(s string) string {
+	if len(s) > 300 {
+		return s[:300] + "..."
+	}
+	return s
+}
+
 // ---------------------------------------------------------------- S: equal seeds, equal outputs (real ChaCha20 core)
 
 // proxy forwards to the real ChaCha20 core and only counts: a single library call that pulls
@@ -1281,6 +1400,7 @@ func main() {
 		"U4: all ordered pairs (n1,n2) of a boundary set: UintN(n2) after UintN(n1) equals UintN(n2) on a fresh object for ~10 boundary tapes x 3 first tapes; "+
 		"P: Permutation/SubPermutation/Shuffle/Samples for all n<=nmax, m<=n: DFS over all tapes over one representative byte per measured indistinguishability class, all tapes consuming <= minimal+2 bytes, every run on the real code; outputs valid, per consumed length all n!/(n-m)! outcomes produced by the same number of tapes; "+
 		"P2 (sparse shapes): SubPermutation/Samples(n,m) for n=9..34 with m<=3 and n in {48,63,64,65,100,128,129,200,255,256} with m<=2: calls consuming <= 4 tape bytes are decided like P over all tapes; calls consuming more (SubPermutation = full Permutation(n)) over all tapes with <= 2 non-zero draws, validity only; "+
+		"H (history independence): Permutation/SubPermutation/Shuffle/Samples for n in {1,2,3,5,8,9,16,17,100,255,256,257,258,300} (thorough also 511..513, 1000, 65535..65537) x m in {1,2,n/2,n} x 5 tapes, run on a fresh generator and right after each of 6 prior calls that leave non-zero bytes in the internal buffers: same result, same number of reads; "+
 		"E: all (n,m) in {-2^63,-2^31,-1000,-4..9}^2 must error iff n<0 or m<0 or m>n; S: equal seeds/customizers give equal outputs on a fixed call script with the real ChaCha20 core. "+
 		"distinct_nontrivial counts distinct n (U1,U3,U4 first argument), distinct (function,n,m,outcome) reached in P, distinct argument tuples in E, seed configurations in S; evaluations = library calls judged.")
 	run.Set("uintn_exhaustive_bound_requested", N)
@@ -1400,6 +1520,7 @@ func main() {
 	}
 	permPart(nmax, k)
 	sparsePart(run.Thorough())
+	historyPart(run.Thorough())
 
 	argsPart()
 	seedsPart()
